@@ -66,6 +66,12 @@ def make_payload(sender, inc, counter, length, kind):
     return ident + fill
 
 
+def accepted(result):
+    """_recv_datagram outcome as seen by the probes: True, or 'raised:<Exc>' when the datagram passed authentication and
+    the window and a handler further down raised (the connection's bookkeeping has accepted it all the same)."""
+    return result is True or (isinstance(result, str) and result.startswith("raised"))
+
+
 def sig(payload):
     return (len(payload), hashlib.blake2b(bytes(payload), digest_size=10).hexdigest())
 
@@ -206,7 +212,7 @@ class SimHandler:
             w.seams.ftime.sleep(d)
         self._ev("update")
         for m in w.monitors:
-            m.on_tick()
+            w._guard(m.on_tick)
 
 
 class ClientNode:
@@ -402,6 +408,7 @@ class World:
         self.seams.wake_lag_max = c.get("wake_lag", 0.0)
         self.monitors = list(monitors)
         self.custom_ops = {}
+        self.harness_exc = None    # first exception raised inside a monitor hook (fatal for the run)
         self.sockerrs = []         # (t0, t1, client addr): the server's sendto towards that address fails in [t0, t1)
         self.after_build = []      # fn(world) called once server and client nodes exist, before the run starts
         self.current_client = None # ClientNode whose update() is running
@@ -569,6 +576,18 @@ class World:
                 th._wake()
 
     # ------------------------------------------------------------------ probes on the connection classes
+    def _guard(self, fn, *a):
+        """Run a monitor hook; an exception in the machinery must never be swallowed by the code under test."""
+        try:
+            return fn(*a)
+        except HarnessError:
+            raise
+        except Exception as e:      # noqa
+            import traceback
+            if self.harness_exc is None:
+                self.harness_exc = "%s: %s\n%s" % (type(e).__name__, e, traceback.format_exc()[-1500:])
+            return None
+
     def _install_probes(self):
         w = self
         CB = conn_mod.ConnectionBase
@@ -582,28 +601,28 @@ class World:
             orig = CB._recv_datagram
 
             def _recv_datagram(conn, hdr, datagram):
-                pre = [m.pre_recv(conn, hdr, datagram) for m in mon_recv]
+                pre = [w._guard(m.pre_recv, conn, hdr, datagram) for m in mon_recv]
                 try:
                     res = orig(conn, hdr, datagram)
                 except Exception as e:      # noqa: the oracles still see the state the call left behind
                     for m, p in zip(mon_recv, pre):
-                        m.post_recv(conn, hdr, datagram, p, "raised:" + type(e).__name__)
+                        w._guard(m.post_recv, conn, hdr, datagram, p, "raised:" + type(e).__name__)
                     raise
                 for m, p in zip(mon_recv, pre):
-                    m.post_recv(conn, hdr, datagram, p, res)
+                    w._guard(m.post_recv, conn, hdr, datagram, p, res)
                 return res
             S._set(CB, "_recv_datagram", _recv_datagram)
         if mon_build:
             orig_b = CB._build_packet
 
             def _build_packet(conn):
-                pre = [m.pre_build(conn) for m in mon_build]
+                pre = [w._guard(m.pre_build, conn) for m in mon_build]
                 pkt = orig_b(conn)
                 if pkt is not None:
                     for m, p in zip(mon_build, pre):
-                        m.on_build(conn, pkt, p)
+                        w._guard(m.on_build, conn, pkt, p)
                 for m, p in zip(mon_build, pre):
-                    m.after_build(conn, pkt, p)
+                    w._guard(m.after_build, conn, pkt, p)
                 return pkt
             S._set(CB, "_build_packet", _build_packet)
         if mon_ack:
@@ -611,12 +630,12 @@ class World:
 
             def _handle_ack(conn, seqnum):
                 for m in mon_ack:
-                    m.on_ack(conn, seqnum, True)
+                    w._guard(m.on_ack, conn, seqnum, True)
                 return orig_a(conn, seqnum)
 
             def _handle_timeout(conn, seqnum):
                 for m in mon_ack:
-                    m.on_ack(conn, seqnum, False)
+                    w._guard(m.on_ack, conn, seqnum, False)
                 return orig_t(conn, seqnum)
             S._set(CB, "_handle_ack", _handle_ack)
             S._set(CB, "_handle_timeout", _handle_timeout)
@@ -625,7 +644,7 @@ class World:
 
             def _recvApp(conn, msgseq, msg):
                 for m in mon_app:
-                    m.on_recv_app(conn, msgseq, msg)
+                    w._guard(m.on_recv_app, conn, msgseq, msg)
                 return orig_r(conn, msgseq, msg)
             S._set(CB, "_recvApp", _recvApp)
         if mon_msg:
@@ -634,7 +653,7 @@ class World:
             def _recv_message(conn, typ, msgseq, msg):
                 dup = conn.bitfield_msg.contains(msgseq) if conn.bitfield_msg.current_seqnum != 0 else False
                 for m in mon_msg:
-                    m.on_recv_message(conn, typ, msgseq, msg, dup)
+                    w._guard(m.on_recv_message, conn, typ, msgseq, msg, dup)
                 return orig_m(conn, typ, msgseq, msg)
             S._set(CB, "_recv_message", _recv_message)
         # every ServerClientConnection ever created gets a stable name
@@ -797,6 +816,8 @@ class World:
                     k.shutdown()
         finally:
             World.current = None
+        if self.harness_exc is not None:
+            raise HarnessError("exception inside a monitor hook: " + self.harness_exc)
         return self
 
     # summary used in evidence / digests
